@@ -100,7 +100,7 @@ def segLt : Path → Path → Bool
   | a :: as, b :: bs => if a < b then true else if b < a then false else segLt as bs
 
 def wellFormed (mods : List String) (files : List (Path × Body)) (via : Lid) : Bool :=
-  mods.all modName && distinct mods &&
+  mods.all (fun m => modName m && m ≠ "environment") && distinct mods &&
   (match via with
     | .m mod => mods.contains mod
     | .d => !mods.isEmpty
